@@ -287,8 +287,9 @@ func (h *passHarness) fakeArchiver() {
 // ---- emitting the Coq case ----
 
 type interner struct {
-	ids  map[string]int
-	urls map[string]int
+	ids         map[string]int
+	urls        map[string]int
+	includeOnly string // --include-host value of this case ("" = none)
 }
 
 func (in *interner) id(u string) int {
@@ -352,6 +353,11 @@ func hostOf(u string) string {
 
 // expected normalisation outcome of a raw reference, by construction of the link pool
 func (in *interner) preAns(raw string, parent *snapNode) string {
+	if in.includeOnly != "" && !strings.HasPrefix(raw, "/") && !strings.HasPrefix(raw, "http://nodot/") && !strings.HasPrefix(raw, "ftp://") &&
+		!strings.Contains(hostOf(raw), in.includeOnly) {
+		// --include-host is set and this host matches none: refused like an excluded URL
+		return fmt.Sprintf("(POk %d true false)", in.url(raw))
+	}
 	switch {
 	case strings.HasPrefix(raw, "http://nodot/"), strings.HasPrefix(raw, "ftp://"):
 		return "PNormFail"
@@ -404,6 +410,10 @@ func execPass(input string) Result {
 	c.MaxRedirect = mr
 	c.DisableAssetsCapture = da
 	c.MaxHops = 1
+	c.IncludeHosts = nil
+	if kv["inc"] == "1" {
+		c.IncludeHosts = []string{"a.example"}
+	}
 	ph.mu.Lock()
 	ph.snaps = nil
 	ph.outlinks = nil
@@ -439,6 +449,9 @@ func execPass(input string) Result {
 	ph.mu.Unlock()
 
 	in := &interner{ids: map[string]int{}, urls: map[string]int{}}
+	if kv["inc"] == "1" {
+		in.includeOnly = "a.example"
+	}
 	in.id(seed.GetID())
 	in.url(start)
 	// group snapshots into passes: pre.done, arch.done, post.done, fin.*
@@ -499,7 +512,7 @@ func execPass(input string) Result {
 	_ = sort.Strings
 	term := fmt.Sprintf("PC (Cfg %d false %s) %d %d %s %s", mr, coqBool(da), in.url(start), hops, coqBool(finished), coqList(passes))
 	return Result{Term: term,
-		Tags:       []string{fmt.Sprintf("passes:%d", npass), fmt.Sprintf("nodes:%d", bucket(maxNodes)), fmt.Sprintf("depth:%d", maxDepth), fmt.Sprintf("outlinks:%d", bucket(nOut)), fmt.Sprintf("mr:%d", mr)},
+		Tags:       []string{fmt.Sprintf("passes:%d", npass), fmt.Sprintf("nodes:%d", bucket(maxNodes)), fmt.Sprintf("depth:%d", maxDepth), fmt.Sprintf("outlinks:%d", bucket(nOut)), fmt.Sprintf("mr:%d", mr), "include-filter:" + kv["inc"]},
 		Nontrivial: npass >= 2 && maxNodes >= 3}
 }
 
@@ -526,7 +539,11 @@ func genPass(r *Rng, i int, tier string) string {
 	}
 	// the start URL carries the case number, so that seeds never collide in the seen-store;
 	// the assets come from a pool shared by all cases, so seen-store hits do occur
-	return fmt.Sprintf("seed=%d mr=%d da=%d hops=%d start=http://%s/s%d-%d.html", r.U64()%1000000, r.Intn(4), da, r.Intn(3), host, r.U64()%100000, i)
+	inc := 0
+	if host == "a.example" && r.Chance(25) {
+		inc = 1 // an include filter: references to the other host are refused by the include branch of preprocess
+	}
+	return fmt.Sprintf("seed=%d mr=%d da=%d hops=%d inc=%d start=http://%s/s%d-%d.html", r.U64()%1000000, r.Intn(4), da, r.Intn(3), inc, host, r.U64()%100000, i)
 }
 
 func init() {
